@@ -957,6 +957,16 @@ func (r *rend) stmt(s *N) {
 		} else {
 			r.line("%s, %s = %s, %s", dst, s.X(), Expr(s.B), Expr(s.A))
 		}
+	case "asgidxc":
+		dst := arrName() + "[" + idx(&N{K: "var", RawX: s.RawX}) + "]"
+		if s.S != "" {
+			dst = s.S + "[" + key(&N{K: "var", RawX: s.RawX}) + "]"
+		}
+		if s.Form == "xfirst" {
+			r.line("%s, %s = two(%s)", s.X(), dst, Expr(s.E))
+		} else {
+			r.line("%s, %s = two(%s)", dst, s.X(), Expr(s.E))
+		}
 	case "slswap":
 		r.line("%s[%d], %s[%d] = %s[%d], %s[%d]", s.S, s.Lo, s.S, s.Hi, s.S, s.Hi, s.S, s.Lo)
 	case "mkfv":
